@@ -247,7 +247,11 @@ def check_G4(ctx, facts):
 def check(ctx):
     facts = ctx.facts('prod')
     cg = CallGraph(facts)
-    check_G1(ctx, facts, cg)
-    check_G2(ctx, facts)
+    # SEM: the registry's add / remove / lookup summarised per (service, key) over its finite abstract state (registry_abs);
+    # subsumes G1 and G2, which are evaluated only when a construct is not modelled
+    import registry_abs
+    if not registry_abs.check_registry(ctx, facts, 'C13.SEM'):
+        check_G1(ctx, facts, cg)
+        check_G2(ctx, facts)
     check_G3(ctx, facts)
     check_G4(ctx, facts)
